@@ -24,7 +24,7 @@ func pickGeom(r *vhlib.Rand) (uint32, int64) {
 	n := pieceCounts[r.Intn(len(pieceCounts))]
 	ps := r.PickU32(16384, 32768, 49152, 65536)
 	var last int64
-	switch r.Intn(6) {
+	switch r.Intn(6) { // a fixed set: geometries (and their piece stores) are cached per run
 	case 0:
 		last = int64(ps)
 	case 1:
@@ -36,7 +36,7 @@ func pickGeom(r *vhlib.Rand) (uint32, int64) {
 	case 4:
 		last = CS
 	default:
-		last = 1 + int64(r.Intn(int(ps)))
+		last = int64(ps)/2 + 7
 	}
 	if last > int64(ps) {
 		last = int64(ps)
@@ -313,24 +313,41 @@ func (h *hgen) step() {
 	case x < 330: // data arrives
 		c := h.pickChunk()
 		i, b := h.blockOf(c)
-		stored := 1
-		if r.Chance(15) {
-			stored = 0
+		// the block's true length, and what AddData will store of the data we send
+		blen := int64(0)
+		if int64(i) < int64(g.num) {
+			blen = min(int64(CS), g.pieceLen(i)-int64(b))
+		}
+		var dl, n int64
+		switch y := r.Intn(100); {
+		case y < 60 && blen > 0: // exactly the block
+			dl, n = blen, blen
+		case y < 70: // empty
+			dl, n = 0, 0
+		case y < 80: // one byte at an odd offset: refused
 			b++
+			dl, n = 1, 0
+		case y < 90 && blen == CS && g.pieceLen(i)-int64(b) >= 2*CS: // two blocks at once: stored, but not "the" block
+			dl = 2 * CS
+			if g.pieceLen(i)-int64(b)-CS < CS {
+				dl = CS + g.pieceLen(i) - int64(b) - CS
+			}
+			n = dl
+		case blen > 1: // short
+			dl, n = blen-1, 0
+		default:
+			dl, n = 0, 0
 		}
 		if h.wild && r.Chance(10) {
 			b = wirecanonU32(r)
-			stored = 1
-			if b%CS != 0 && r.Bool() {
-				stored = 0
-			}
+			dl, n = 0, 0
 		}
 		h.guardFull(false)
 		ch := uint32(0)
 		if int64(i) < int64(g.num) {
 			ch = peerToChunk(g, i, b)
 		}
-		h.do("m piece %d %d %d k=%s", i, b, stored, s.predictK(s.outstanding(ch)))
+		h.do("m piece %d %d %d %d k=%s", i, b, dl, n, s.predictK(s.outstanding(ch)))
 	case x < 380:
 		c := h.pickChunk()
 		i, b := h.blockOf(c)
@@ -555,7 +572,7 @@ func scripted(it *interp) {
 		do("h rtt 500")
 		do("h rate big")
 		do("e request 8,9,10 k=inf")
-		do("m piece 0 0 1 k=inf")
+		do("m piece 0 0 16384 16384 k=inf")
 		do("m choke")
 	}
 }
